@@ -203,11 +203,13 @@ def lint_case(draw):
     for _ in range(3):
         paths.add(instantiate(draw, toks))
     paths.add(draw(st.text(alphabet="ab/.*", min_size=1, max_size=6)))
-    return g, sorted(paths)
+    paths.add("." + draw(st.sampled_from(["a", "ab/a", "a/b.a"])))
+    return g, sorted(paths), draw(st.sampled_from([(), (), ("--root", "."), ("--root", "../proj")]))
 
 
 def check_lint(ctx, case):
-    glob, paths = case
+    glob, paths = case[0], case[1]
+    root_spelling = case[2] if len(case) > 2 else ()
     nf, wf, spec = G.compile_glob(glob)
     if not spec or "'" in glob or "\n" in glob:
         ctx.excluded["unspecified-glob"] += 1
@@ -217,14 +219,15 @@ def check_lint(ctx, case):
     paths = [p for p in paths if not any(q != p and q.startswith(p + "/") for q in paths)]
     if not paths:
         return
-    d = ctx.fresh_dir()
+    d = ctx.fresh_dir() / "proj"
+    d.mkdir()
     try:
         files = {p: "x\n" for p in paths}
         files["REUSE.toml"] = (
             "version = 1\n[[annotations]]\npath = '%s'\nSPDX-FileCopyrightText = 'G'\nSPDX-License-Identifier = 'MIT'\n" % glob
         )
         tree.write_tree(d, files)
-        res, data = tree.lint_json(d)
+        res, data = tree.lint_json(d, extra=tuple(root_spelling))
         if data is None:
             ctx.fail({"glob": glob, "paths": paths}, f"lint --json failed on a valid REUSE.toml: {res.brief()}")
         any_match = any_miss = False
@@ -238,10 +241,10 @@ def check_lint(ctx, case):
             any_match |= r
             any_miss |= not r
         special = ("*" in glob) or ("\\" in glob)
-        ctx.count({"lint-glob": glob, "paths": paths}, nontrivial=special and any_match and any_miss, labels=["via-lint"],
+        ctx.count({"lint-glob": glob, "paths": paths}, nontrivial=special and any_match and any_miss, labels=["via-lint", f"via-lint:root={' '.join(root_spelling) or 'default'}"],
                   sample={"glob": glob, "paths": paths, "via": "REUSE.toml + lint --json"})
     finally:
-        tree.rmtree(d)
+        tree.rmtree(d.parent)
 
 
 def replay(ctx, case):
